@@ -431,8 +431,9 @@ func dagPut(ctx context.Context, rc *regclient.RegClient, mc dagConfig, rSrc, rT
 			}
 		}
 	}
-	// push manifest
-	if dm.mod == replaced || dm.mod == added || (dm.mod == unchanged && !ref.EqualRepository(rSrc, rTgt)) {
+	// push manifest, an unchanged manifest still needs to be pushed to another repository or to a new tag
+	retag := dm.top && rTgt.Tag != "" && rTgt.Digest == "" && rTgt.Tag != rSrc.Tag
+	if dm.mod == replaced || dm.mod == added || (dm.mod == unchanged && (!ref.EqualRepository(rSrc, rTgt) || retag)) {
 		mpOpts := []regclient.ManifestOpts{}
 		rPut := rTgt
 		if !dm.top {
